@@ -904,7 +904,7 @@ def bounds(quick):
             "hist_geoms": [(4, 1, -2, 3), (8, 3, -4, 10), (6, 1, 2, 10)], "hist_len": 3,
             "der_shapes": [(1, 3)], "der_lens": [2, 3], "der_geoms": [(8, 3, -4, 10)],
             "der_ops": list(DER_OPS) + [(1, -3, 0, 0), (3, 1, -4, 2)],
-            "proj_shapes": all33, "angle_qs": [-4, -3, -2, -1, 0, 1, 2, 3, 4, 5, 6, 98, 99]}
+            "proj_shapes": [s for s in all33 if s != (3, 3)], "angle_qs": [-4, -3, -2, -1, 0, 1, 2, 3, 4, 5, 6, 98, 99]}
 
 
 def expected_count(b):
